@@ -11,6 +11,7 @@ import (
 
 	"github.com/janelia-flyem/dvid/dvid"
 
+	"verif/harness/dvh"
 	"verif/harness/lib"
 )
 
@@ -20,12 +21,13 @@ func fatal(f string, a ...interface{}) {
 }
 
 func main() {
+	dvh.MaybeChild()
 	o := lib.ParseOpts()
 	dvid.SetLogMode(dvid.CriticalMode)
 	log.SetOutput(io.Discard)
 	rng := lib.NewRand(o.Seed)
 	run := lib.NewRun("C04", o)
-	run.Header("From DV Require Import Base.Prelude Model.FileLog Model.C04Run.", "Local Open Scope N_scope.")
+	run.Header("From DV Require Import Base.Prelude Model.FileLog Model.Persist Model.C04Run.", "Local Open Scope N_scope.")
 	rule := "logs: corpus + random record lists (1-6 records, payload 0-400 bytes, boundary entry types), each cut at EVERY byte offset, read by ReadAll and StreamAll of a freshly opened filelog engine; a log case is distinct by (kind, payload sizes, offset range, appended count)"
 
 	if o.Replay != "" {
@@ -40,6 +42,10 @@ func main() {
 			var c jlog
 			lib.LoadReplay(o.Replay, &c)
 			runLog(run, c)
+		case "crash":
+			var c jcrash
+			lib.LoadReplay(o.Replay, &c)
+			runCrashCase(run, c, o)
 		default:
 			b, _ := json.Marshal(k)
 			fatal("unknown replay case %s", b)
@@ -48,6 +54,7 @@ func main() {
 		return
 	}
 	genLogs(run, o, rng)
+	genCrash(run, o, rng)
 	run.Extra["exhaustive"] = true
 	run.Extra["exhaustive_note"] = "every byte offset of every generated log file"
 	run.Finish("c04case", rule, tail)
